@@ -44,7 +44,7 @@ inductive Clause
   | existence | inDowntimeIff | depthEqCount | triggerWriteOnce | triggerOnlyInWindow
   | flexibleTrigger | triggerCascade | startOnce | startedWhenTriggered | fixedStartedInWindow
   | endOnce | endHasStart | removedEvent | expiredRemoved | ownerProtected | droppedResult
-  | fixedStartedWhenTriggered | fixedEndHasStart | triggerNotBeforeStart
+  | fixedStartedWhenTriggered | fixedEndHasStart | triggerNotBeforeStart | startOnlyOnEffect
   deriving Repr, DecidableEq
 
 def Clause.name : Clause → String
@@ -67,6 +67,7 @@ def Clause.name : Clause → String
   | .fixedStartedWhenTriggered => "fixed_started_when_triggered"
   | .fixedEndHasStart => "fixed_end_has_start"
   | .triggerNotBeforeStart => "trigger_not_before_start"
+  | .startOnlyOnEffect => "start_only_on_effect"
 
 def evCount (o : Obs) (ev id : Nat) : Nat :=
   ((o.evs.filter (fun e => e.1 == ev && e.2.1 == id)).map (·.2.2)).sum
@@ -249,6 +250,17 @@ def chkEndOnce (sp : SpecSt) (op : Op) (o : Obs) : Bool :=
     (!(gone o a && decide (0 < a.trig) && decide (a.trig ≤ op.now)) || evCount o 2 a.id == (if sp.paused then 0 else 1)) &&
     (!(gone o a && a.trig == 0 && evCount o 3 a.id == 0) || evCount o 2 a.id == 0))
 
+/-- … requested only when it takes effect: a DowntimeStart request is made in the very operation in which
+    the downtime takes effect — it had not taken effect before (no trigger time, or one the clock has not
+    reached yet), the operation triggers it (`OnDowntimeTriggered`), and afterwards its trigger time is set
+    (or the downtime has ended within the same operation).  No DowntimeStart for a downtime outside its
+    window, for one that is already in effect, or for one that is merely created. -/
+def chkStartEffect (sp : SpecSt) (op : Op) (o : Obs) : Bool :=
+  ((preDts sp op o).zip (postDts sp op o)).all (fun (a, b) =>
+    evCount o 1 a.id == 0 ||
+    (decide (evCount o 3 a.id > 0) && !(decide (0 < a.trig) && decide (a.trig ≤ op.now)) &&
+      (gone o a || b.trig != 0)))
+
 /-- No DowntimeEnd without the DowntimeStart before it: flexible downtimes … -/
 def chkEndHasStart (sp : SpecSt) (op : Op) (o : Obs) : Bool :=
   (postDts sp op o).all (fun d => !(evCount o 2 d.id > 0 && !d.fixed && !d.excused) || d.starts ≥ 1)
@@ -294,7 +306,8 @@ def specChecks (sp : SpecSt) (op : Op) (o : Obs) : List (Bool × Clause) :=
     (chkRemovedEvent sp op o, .removedEvent),
     (chkExpired sp op o, .expiredRemoved),
     (chkOwner sp op o, .ownerProtected),
-    (chkTrigStart sp op o, .triggerNotBeforeStart) ]
+    (chkTrigStart sp op o, .triggerNotBeforeStart),
+    (chkStartEffect sp op o, .startOnlyOnEffect) ]
 
 /-- Check one operation with its observation against the clauses enabled by `m`; `sp` is the
     bookkeeping before. -/
